@@ -9,12 +9,17 @@ open Crew
 let z = z_of_int
 let iz = int_of_z
 exception Abort
+(* element category of the native binary: 'n' nothrow-move (default), 't' trivially relocatable (kit does not count its
+   copies / moves), 'c' copy-only (every element move IS a copy), 's' self-move-hostile *)
+let cat = ref 'n'
+let adj_mv mv = if !cat = 't' || !cat = 'c' then 0 else mv
+let adj_cp mv cp = if !cat = 't' then 0 else if !cat = 'c' then (if mv = 1 || cp = 1 then 1 else 0) else cp
 exception Wrong
 
 let get r = match r with Ok (a, w) -> (a, w) | NullCrew -> raise Abort | SwapPre -> raise Abort | WrongMgr -> raise Wrong
 
 let traits_of s =
-  if s = "N" then None else
+  if s.[0] = 'N' then None else
   let k = int_of_string s in
   if k = 8 then Some { pocca = false; pocma = true; pocs = false; nma = true; is_empty = true }
   else Some { pocca = (k land 4) <> 0; pocma = (k land 2) <> 0; pocs = (k land 1) <> 0; nma = (k < 16); is_empty = false }
@@ -29,6 +34,7 @@ let spec_items st base multi_crew =
   match k with
   | 'f' -> let l = plain @ dups in                 (* DataTable: the two rows added last are extracted (detached) again *)
     let keep = max 0 (Stdlib.List.length l - 2) in (Stdlib.List.filteri (fun i _ -> i < keep) l, n)
+  | 'w' -> (Stdlib.List.init n (fun _ -> base), n)
   | 'e' | 'c' -> ([], n)
   | 'v' -> (Stdlib.List.filter_map (fun i -> if i mod 2 = 1 then Some (base + 3 * i) else None) (Stdlib.List.init n (fun i -> i)), n)
   | _ -> (all, n)
@@ -45,14 +51,14 @@ type kindinfo = Inl of bool                             (* inline crew, stateful
 let kind_of = function
   | "HashSetInl" -> Inl true | "TreeSetInl" -> Inl false
   | "Array" -> Arr (0, false) | "ArrayIC" -> Arr (4, false) | "Seg" -> Arr (0, false)
-  | "HashSet" | "HashMap" -> Crew (KHash, false, None)
+  | "HashSet" | "HashMap" | "HashSetFast" | "HashSetOpen2" -> Crew (KHash, false, None)
   | "HashMulti" -> Crew (KMulti, true, None)
   | "TreeSet" | "TreeMap" -> Crew (KTree, false, None)
   | "DataTable" -> Crew (KTable, false, None)
-  | "vec" -> Arr (0, true)
+  | "vec" -> Arr (0, true) | "vecic" -> Arr (4, true)
   | "set" -> Crew (KTree, false, Some WSet) | "mset" -> Crew (KTree, true, Some WSet)
   | "map" -> Crew (KTree, false, Some WMap) | "mmap" -> Crew (KTree, true, Some WMap)
-  | "uset" -> Crew (KHash, false, Some WUSet) | "umap" -> Crew (KHash, false, Some WUMap)
+  | "uset" | "useto" -> Crew (KHash, false, Some WUSet) | "umap" -> Crew (KHash, false, Some WUMap)
   | "ummap" -> Crew (KMulti, true, Some WUMulti)
   | _ -> failwith "kind"
 
@@ -218,7 +224,8 @@ let run_crew k multi wko tr op ss ts sid tid aid post sst tst est =
   let line1 = Printf.sprintf "ok T=%s S=%s tc=%s sc=%s mv=%d cp=%d ts=%s ss=%s"
       (if self || none then "-" else ids (mgr_of t1)) (ids (mgr_of s1))
       (if self || none then "[]" else show (il (items_of t1))) (show (il (items_of s1)))
-      (if has_event is_move w1 && not iscopy then 1 else 0) (if has_event is_copy w1 then 1 else 0) ts_str ss_str in
+      (adj_mv (if has_event is_move w1 && not iscopy then 1 else 0))
+      (adj_cp (if has_event is_move w1 && not iscopy then 1 else 0) (if has_event is_copy w1 then 1 else 0)) ts_str ss_str in
   (* post operation on the source with a fresh F *)
   let s1 = if op = "merge" && post = "none" then MovedFrom else s1 in         (* the harness lets the source's crew die after a merge *)
   let useF = Stdlib.List.mem post ["swapf"; "fswap"; "massign"; "cassign"] in
@@ -328,7 +335,8 @@ let run_arr ic isvec tr op ss ts sid tid aid post =
   let line1 = Printf.sprintf "ok T=%s S=%s tc=%s sc=%s mv=%d cp=%d ts=%s ss=A"
       (if self || none then "-" else string_of_int (iz t1.amgr)) (string_of_int (iz s1.amgr))
       (if self || none then "[]" else show (il t1.aitems)) (show (il s1.aitems))
-      (if has_event is_move w1 && not iscopy then 1 else 0) (if has_event is_copy w1 then 1 else 0) (if selfnone then "-" else "A") in
+      (adj_mv (if has_event is_move w1 && not iscopy then 1 else 0))
+      (adj_cp (if has_event is_move w1 && not iscopy then 1 else 0) (if has_event is_copy w1 then 1 else 0)) (if selfnone then "-" else "A") in
   let useF = Stdlib.List.mem post ["swapf"; "fswap"; "massign"; "cassign"] in
   let f = arr_new (z aid) in
   let (f, w2) = if useF then Stdlib.List.fold_left (fun (c, w) i -> arr_insert icn c (z (300000 + 3 * i)) w) (f, w1) [0; 1; 2; 3; 4] else (f, w1) in
@@ -361,6 +369,7 @@ let () = iter_lines (fun line ->
   | trs :: kind :: op :: ss :: ts :: sid :: tid :: aid :: post :: rest ->
     let (sst, tst, est) = (match rest with [a; b] -> (a, b, "*") | [a; b; c] -> (a, b, c) | _ -> ("*", "*", "*")) in
     (try
+      cat := (if String.length trs = 2 && trs.[0] = 'N' then trs.[1] else 'n');
       let tr = traits_of trs in
       let (sid, tid, aid) = (int_of_string sid, int_of_string tid, int_of_string aid) in
       (match kind_of kind with
